@@ -129,6 +129,18 @@ Json generate(const std::string& tier, uint64_t seed, uint64_t index) {
   Json sc = Json::object();
   int lsel = (int)rng.below(100);
   std::string label = lsel < 15 ? "valid" : lsel < 52 ? "damaged" : lsel < 85 ? "hostile" : "shrink";
+  // rare: an expression nested tens of thousands of levels deep (a chain of unary operators): the reader descends recursively
+  const bool deep = rng.chance(0.0003);
+  if (deep) {
+    label = "deep";
+    eo.bin = eo.swap = false;
+    static const char* unary[] = {"o16\n", "o15\n", "o39\n", "o13\n"};
+    std::string chain; const char* u = rng.pick(unary);
+    size_t depth = 30000 + rng.below(30000);
+    for (size_t k = 0; k < depth; ++k) chain += u;
+    em.bytes = "g3 1 1 0\n 1 1 0 0 0 0\n 1 0\n 0 0\n 1 0 0\n 0 0 0 1\n 0 0 0 0 0\n 0 0\n 0 0\n 0 0 0 0 0\nC0\n" + chain + "v0\nb\n0 0 1\nr\n1 5\n";
+    em.fields.clear();
+  }
   sc.set("label", label);
   sc.set("fmt", eo.swap ? "binswap" : eo.bin ? "bin" : "text");
   sc.set("nl", em.bytes);
